@@ -795,7 +795,7 @@ fn main() {
     let mut run = Runner::new();
     let mut cx = Ctx { out: &mut out, run: &mut run, rng: Rng::new(a.seed ^ 0xC18), thorough: a.thorough };
     if a.only.as_deref() != Some("gen") { fixed_streams(&mut cx, &reg); }
-    let nvals = if a.thorough { 24 } else { 5 };
+    let nvals = if a.thorough { 12 } else { 5 };
     for (idx, e) in reg.iter().enumerate() {
         let mut g = Gen { rng: Rng::new(a.seed.wrapping_mul(1000003).wrapping_add(idx as u64)), invalid_ok: false, top: None };
         for k in 0..nvals {
@@ -805,7 +805,7 @@ fn main() {
             streams(&mut cx, idx, e, &v, true);
         }
         if e.ty.contains("ml") {
-            for _ in 0..(if a.thorough { 8 } else { 2 }) {
+            for _ in 0..(if a.thorough { 4 } else { 2 }) {
                 g.top = None;
                 g.invalid_ok = true;
                 let v = gen_for(e, &mut g);
